@@ -93,6 +93,27 @@ class Gen:
         n = (rng.randrange(253) << 12) | (255 << 4) | rng.randrange(8)
         return [("A000001.000 %05X %05X %s\r\n" % (n, pgn, data.hex().upper())).encode()]
 
+    def badvalue(self, rng, kind):
+        """A syntactically valid frame of a KNOWN PGN whose payload is boundary-heavy / truncated: the real
+        decoder raises on a good share of these (ValueError above/below range, IndexError on an empty payload)."""
+        from nmea2000.encoder import NMEA2000Encoder
+        pgn = rng.choice([127250, 129025, 59904, 127245, 130306, 126992, 129029, 126996])
+        dst = 255
+        src, prio = rng.randrange(253), rng.randrange(8)
+        hdr = NMEA2000Encoder._build_header(pgn, src, dst, prio)
+        ln = rng.choice([0, 1, 3, 4, 8, 8, 8])
+        data = bytes(rng.choice([0, 0xFF, 0x7F, 0x80, rng.getrandbits(8)]) for _ in range(8))
+        if kind == "ebyte":
+            return [bytes([0x80 | ln]) + hdr.to_bytes(4, "big") + data]
+        if kind == "waveshare":
+            from nmea2000.utils import calculate_canbus_checksum
+            b = bytes([0xAA, 0x55, 1, 2, 1]) + hdr.to_bytes(4, "little") + bytes([ln]) + data + b"\0"
+            return [b + bytes([calculate_canbus_checksum(b)])]
+        if kind == "yd":
+            return [("%s R %08X %s\r\n" % (self._ts(rng), hdr, " ".join("%02X" % x for x in data[:max(ln, 1)]))).encode()]
+        n = (src << 12) | (dst << 4) | prio
+        return [("A000001.000 %05X %05X %s\r\n" % (n, pgn, data[:max(ln, 1)].hex().upper())).encode()]
+
     def malformed(self, rng, kind, ascii_only=True):
         if kind == "ebyte":
             r = rng.random()
@@ -135,8 +156,10 @@ class Gen:
         pkts = []
         while len(pkts) < npk:
             r = rng.random()
-            if r < p_bad:
+            if r < p_bad * 0.5:
                 pkts += self.malformed(rng, kind, ascii_only)
+            elif r < p_bad:
+                pkts += self.badvalue(rng, kind)
             elif r < p_bad + 0.12:
                 pkts += self.unknown(rng, kind)
             elif r < p_bad + 0.32 and self.fast:
@@ -210,6 +233,11 @@ def make_spec(rng, gen, kind, how=None, npk=None, ascii_only=True, special=None)
         spec["settle"] = 50.0
     if special == "tail":
         pkts.append(pkts[0][: max(1, len(pkts[0]) // 2)])      # an unterminated tail stays in the reader
+    if special == "eof" and kind == "ebyte":
+        if rng.random() < 0.7:
+            pkts.append(pkts[0][: rng.randrange(1, 13)])       # the stream ends inside a packet
+        spec["eof"] = True
+        spec["settle"] = 100.0
     data = b"".join(pkts)
     chunks = segment(rng, data, pkts, how)
     assert b"".join(chunks) == data
@@ -304,6 +332,8 @@ def oracle(spec, res):
         return "spurious-disconnect", f"state {f['state']} after {f['nopen']} connection(s) although the link never failed"
     if sp == "banner" and BANNER in ref_frame(kind, data) and f["nopen"] < 2:
         return "banner-ignored", "the Sorry,Limited banner did not lead to a reconnect"
+    if sp == "eof" and f["nopen"] < 2:
+        return "eof-ignored", "end of stream on the EByte link did not lead to a reconnect"
     return None
 
 
@@ -387,6 +417,8 @@ def _reader_jobs(ctx, n):
         eofed = False
         for _ in range(rng.randrange(5, 40)):
             r = rng.random()
+            if eofed and r < 0.4 and rng.random() < 0.8:
+                r = 0.5 + r
             if r < 0.4:
                 k = rng.choice([0, 1, 1, 2, 3, 5, 13, 20])
                 alphabet = [10, 10, 13, 65, 66, 32, 0, 255]
@@ -467,6 +499,7 @@ def correspond(ctx):
         for _ in range(ctx.n(3, 20)):
             specs.append(make_spec(rng, gen, kind, special="tail"))
     for _ in range(ctx.n(4, 30)):
+        specs.append(make_spec(rng, gen, "ebyte", special="eof"))
         specs.append(make_spec(rng, gen, "ebyte", special="banner"))
         specs.append(make_spec(rng, gen, rng.choice(["actisense", "yd"]), special="limit"))
     judged = run_and_judge(specs)
